@@ -541,7 +541,7 @@ func (h c20Hist) coq() string {
 	for i := range h.Ops {
 		items[i] = fmt.Sprintf("(%s, %s, %d)", h.Ops[i].coq(), h.Obs[i].coq(), h.Obs[i].N)
 	}
-	return coqList(items)
+	return "SeqCase " + coqList(items)
 }
 
 func runC20(a *runArgs) error {
@@ -555,8 +555,8 @@ func runC20(a *runArgs) error {
 	wdir := filepath.Join(absOut, "world")
 	os.Setenv("VERIF_STUB_SCENARIO", filepath.Join(wdir, "scenario.txt"))
 
-	cw := newCaseWriter(a.Out, "C20", "From GV Require Import Lib.Bytes C20.Model.",
-		"list (op * obs * nat)", 100, "mismatches cases")
+	cw := newCaseWriter(a.Out, "C20", "From GV Require Import Lib.Bytes C20.Model C20.Conc.",
+		"anycase", 100, "all_mismatches cases")
 	cl := newCaseLog(a.Out)
 	defer cl.close()
 	m := &meta{Property: "C20", Seed: a.Seed, Tier: a.Tier, PerShard: 100,
@@ -599,14 +599,44 @@ func runC20(a *runArgs) error {
 		idx++
 	}
 
+	emitConc := func(res c20CResult) {
+		for _, it := range res.hist.Items {
+			k := "conc:" + it.K
+			if it.K != "world" {
+				k += ":" + it.Obs.K
+			}
+			m.Dist[k]++
+		}
+		m.Strata[res.hist.Stratum]++
+		term := res.hist.coq()
+		distinct[term] = true
+		cw.add(term)
+		cl.add(res.hist)
+		for _, d := range res.direct {
+			d.Replay = res.hist
+			m.Direct = append(m.Direct, d)
+		}
+		m.DirectRuns += len(res.hist.Items)
+		if m.Strata[res.hist.Stratum] == 1 {
+			m.Samples = append(m.Samples, res.hist)
+		}
+		idx++
+	}
 	if a.Replay != "" {
 		var rp struct {
-			Replay c20Hist `json:"replay"`
+			Replay struct {
+				c20Hist
+				Items []c20CItem `json:"items"`
+			} `json:"replay"`
 		}
 		if err := readJSON(a.Replay, &rp); err != nil {
 			return err
 		}
 		r := rand.New(rand.NewSource(a.Seed))
+		if len(rp.Replay.Items) > 0 {
+			// a concurrent schedule is regenerated from its seed (the schedule is a function of the PRNG state)
+			return fmt.Errorf("concurrent schedules are replayed with -seed (case index in the replay file)")
+		}
 		emit(c20RunHistory(wdir, r, rp.Replay.Ops, "replay", 0))
 	} else {
 		nRandom, maxLen, nTrunc := 150, 40, 1
@@ -657,6 +687,15 @@ func runC20(a *runArgs) error {
 				}
 			}
 			emit(c20RunHistory(wdir, r, ops, "random", idx))
+		}
+		// stratum 4: concurrent lookups under controlled schedules (quiescent world: theorem
+		// domain + direct oracle; mixed: world changes between steps, model only)
+		nConc := 80
+		if a.Tier == "thorough" {
+			nConc = 1500
+		}
+		for i := 0; i < nConc; i++ {
+			emitConc(c20RunConc(wdir, r, i%3 == 2, idx))
 		}
 	}
 	cw.flush()
